@@ -300,8 +300,75 @@ def _basis_step(case, rec, si, o, m, basis, fresh, nel, ndofs, res, jac, state):
             rec.label('scribbled-' + m)
 
 
+# ---- shapes and loop lengths that depend on an argument -------------------------------------------------------------------
+
+@st.composite
+def argshape_cases(draw, tier):
+    form = draw(st.sampled_from(['loopsum-index', 'loopsum-index-x', 'loopsum-take', 'insertaxis-sum', 'range-sum', 'loopcat', 'nested-loop']))
+    cfg = dict(simplify=draw(st.booleans()), optimize=draw(st.booleans()), cache=draw(st.sampled_from([True, True, False])))
+    steps = [dict(n=draw(st.integers(0, 4)), x=draw(st.sampled_from([-1.5, -.5, .25, 1., 2.])), scribble=draw(st.booleans())) for _ in range(draw(st.integers(2, 8)))]
+    return dict(form=form, cfg=cfg, steps=steps, m=draw(st.integers(1, 3)))
+
+
+def _argshape_build(form, m):
+    """returns (evaluable, reference(n, x)): n is an integer argument that only determines a loop length / axis length, x a float vector of length 4"""
+    from nutils import evaluable as ev
+    n = ev.Maximum(ev.Argument('n', (), int), ev.constant(0))      # lengths must be provably non-negative
+    x = ev.Argument('x', (ev.constant(4),), float)
+    i = ev.loop_index('i', n)
+    fi = ev.astype(i, float)
+    if form == 'loopsum-index':          # sum_{i<n} i^2: nothing but the length depends on an argument
+        return ev.loop_sum(fi * fi, i), lambda N, X: numpy.float64(sum(k * k for k in range(N)))
+    if form == 'loopsum-index-x':
+        return ev.loop_sum(ev.prependaxes(fi, x.shape) * x, i), lambda N, X: X * sum(range(N))
+    if form == 'loopsum-take':           # sum_{i<n} x[i], n <= 4
+        return ev.loop_sum(ev.get(x, 0, i), i), lambda N, X: X[:N].sum()
+    if form == 'insertaxis-sum':         # sum over an inserted axis of length n
+        return ev.Sum(ev.InsertAxis(x, n)), lambda N, X: X * N
+    if form == 'range-sum':
+        return ev.Sum(ev.astype(ev.Range(n), float) * ev.constant(float(m))), lambda N, X: numpy.float64(m * sum(range(N)))
+    if form == 'loopcat':                # concatenation of n chunks of length m: the shape of the result depends on n
+        body = ev.InsertAxis(fi, ev.constant(m))
+        return ev.loop_concatenate(body, i), lambda N, X: numpy.repeat(numpy.arange(N, dtype=float), m)
+    if form == 'nested-loop':            # inner loop of constant length inside the loop of length n
+        j = ev.loop_index('j', m)
+        inner = ev.loop_sum(ev.astype(j, float) + fi, j)
+        return ev.loop_sum(inner, i), lambda N, X: numpy.float64(sum(sum(jj + k for jj in range(m)) for k in range(N)))
+    raise NotImplementedError(form)
+
+
+def check_argshape(case, rec):
+    from nutils import evaluable as ev
+    func, ref = _argshape_build(case['form'], case['m'])
+    cfg = case['cfg']
+    f = ev.compile(func, _simplify=cfg['simplify'], _optimize=cfg['optimize'], cache_const_intermediates=cfg['cache'])
+    base = numpy.array([1., -2., .5, 3.])
+    seen = set()
+    for si, s in enumerate(case['steps']):
+        N = s['n']; X = base * s['x']
+        args = dict(n=numpy.array(N), x=X.copy())
+        try:
+            got = f(args)
+        except Exception as e:
+            raise Violation('call-raised', f'{case["form"]} cfg {cfg} step {si} n={N}: {type(e).__name__}: {str(e)[:200]}', where='argshape:raised:' + type(e).__name__)
+        want = numpy.asarray(ref(N, X), dtype=float)
+        got = numpy.asarray(got)
+        if got.shape != want.shape or not numpy.allclose(got, want, rtol=1e-13, atol=1e-13):
+            fresh = numpy.asarray(ev.compile(func, _simplify=cfg['simplify'], _optimize=cfg['optimize'], cache_const_intermediates=False)(args))
+            kind = 'history-dependence' if fresh.shape == want.shape and numpy.allclose(fresh, want, rtol=1e-13, atol=1e-13) else 'wrong-value'
+            raise Violation(kind, f'{case["form"]} cfg {cfg} step {si} (n={N}, earlier n={[t["n"] for t in case["steps"][:si]]}): reused function returned {got.tolist()}, a fresh function {fresh.tolist()}, closed form {want.tolist()}', where=f'argshape:{kind}:{case["form"]}')
+        if not numpy.array_equal(args['x'], X):
+            raise Violation('argument-modified', f'{case["form"]}: x was modified by the call', where='argshape:argument-modified')
+        if s['scribble'] and isinstance(got, numpy.ndarray) and got.flags.writeable and got.size:
+            got[...] = 97.
+        seen.add(N)
+    rec.nontrivial = len(seen) >= 2
+    rec.label('argshape:' + case['form'], 'argshape-distinct-lengths:%d' % min(len(seen), 3))
+
+
 SUBS = [Sub('history', cases, check, {'quick': 1500, 'thorough': 12000}, weight=3, timeout=25),
-        Sub('basis', basis_cases, check_basis, {'quick': 25, 'thorough': 300}, weight=1, timeout=120)]
+        Sub('basis', basis_cases, check_basis, {'quick': 25, 'thorough': 300}, weight=1, timeout=120),
+        Sub('argshape', argshape_cases, check_argshape, {'quick': 200, 'thorough': 3000}, weight=1, timeout=60)]
 
 def _upstream_c01(case, v):
     prog = case.get('prog', case)
